@@ -233,7 +233,7 @@ class Family:
                 log('note: known finding %s no longer reproduces on its canonical case (fixed?)' % k['id'])
 
     def validate(self, tr, source, case_of):
-        viol, st = core.validate_trace('ViseTrace', 'vt.cfg', tr, workdir=self.w, chunk=2500, par=core.NCPU)
+        viol, st = core.validate_trace('ViseTrace', 'vt.cfg', tr, workdir=self.w, chunk=2500, par=core.NCPU, adaptive=True)
         self.out.cov['evaluations'] += st['events']
         n = 0
         ctx = dict(croak=set(), req={})
